@@ -782,6 +782,29 @@ impl Hist {
 			},
 			_ => (None, Some(Uuid::from_bytes([9u8; 16]))),
 		};
+		let snum = slate.map(|u| self.slate_nums.get(&u).cloned().unwrap_or(999_999));
+		if self.p.chance(1, 2) && self.s.node.height() < 100 {
+			// the owner API call: update_wallet_state first, then the cancel proper
+			self.learn(i);
+			let tip = self.s.node.height();
+			let view = self.node_view(i);
+			let chain = self.chain_outs(i);
+			let parent = self.active(i);
+			let inst = self.s.wallets[i].inst.clone();
+			let mask = self.s.wallets[i].mask.clone();
+			let r = guarded(|| owner::cancel_tx(inst, mask.as_ref(), &None, id, slate));
+			let rc = rc_of(&r);
+			// (an error from the update part — not a refusal of the cancel itself — is not followed)
+			let nomodel = !(rc == vec![0] || rc == vec![1, 9] || rc == vec![1, 10]);
+			self.record(
+				i,
+				json!({"k": "cancel", "id": id, "slate": snum, "via_owner": true, "tip": tip, "parent": parent,
+					"view": view, "chain": chain}),
+				rc,
+				json!({"nomodel": nomodel}),
+			);
+			return;
+		}
 		let r = guarded(|| {
 			self.s.with(i, |b, m| {
 				let pk = b.parent_key_id();
@@ -789,7 +812,6 @@ impl Hist {
 			})
 		});
 		let rc = rc_of(&r);
-		let snum = slate.map(|u| self.slate_nums.get(&u).cloned().unwrap_or(999_999));
 		self.record(i, json!({"k": "cancel", "id": id, "slate": snum}), rc, json!({}));
 	}
 	fn coinbase_key(&mut self, i: usize) {
